@@ -4,6 +4,7 @@ import pyimpl as P
 from oracle_util import *  # noqa
 from tokutil import *  # noqa
 from protocol import from_real
+import h1tok_util as H
 
 ID = "C03"
 LEAN_MODULE = ["SCoda.Props.C01", "SCoda.Props.C01b", "SCoda.Props.C03b", "SCoda.Props.C10", "SCoda.Props.C03c", "SCoda.Props.TokTie", "SCoda.Props.C03e", "SCoda.Props.C03f"]
@@ -37,7 +38,10 @@ CLAUSES = [
      ["SCoda.C03f.bars_trackGood", "SCoda.C03f.extract_wholebars_input", "SCoda.C03f.extract_wholebars_full", "SCoda.C03f.extract_wholebars_nozero", "SCoda.C03f.nozero_needs_sigsPos", "SCoda.C03f.sigsPos_ppqn", "SCoda.C03e.extract_wholebars_statement_false"]),
 ]
 RULE = ("valid pieces (1-3 tracks, 2-6 bars, signature changes, empty bars) split into bars by sequences_split_bars, regrouped "
-        "by random partitions (thorough: all 2^(bars-1) partitions up to 6 bars) x sampled configurations; "
+        "by random partitions (thorough: all 2^(bars-1) partitions up to 6 bars) x sampled configurations (a quarter with custom / unsorted step "
+        "lists, a step above ppqn, three-digit steps, repeated entries); the chunked stream is compared with the single call on the re-joined bars "
+        "AND, when no note crosses a bar line, with the single call on the GENERATED tracks and with the piece's own signatures (plain data): notes, "
+        "bar ends, in-force bar-length timeline of the returned signature events; "
         "non-trivial = at least 2 chunks and at least 2 notes")
 ASSUMPTIONS = ["the glue from real bars to whole-bar chunks (C03f.extract_wholebars_nozero) assumes tracks on one channel each — a need of the proof only: mixed-channel tracks were replayed on the implementation and evaluated in the model without a failure",
                "models: SCoda.tokeniseCore with explicit carried state, SCoda.splitBars, SCoda.barsToSeq; every call of every "
@@ -61,7 +65,9 @@ def chunk_tracks(tb, lo, hi):
 
 
 def stalled_chunk(tracks, cuts):
-    """D19: a call other than the last ends with a bar in which no track moves the clock off the bar line"""
+    """D19: a call other than the last ends with a bar in which no track moves the clock off the bar line.
+    NOT used by the known-finding predicate any more (audit round 3, K5: it reads the bars through sequences_split_bars of the tree under
+    test); kept as the reference H.stalled_chunk_plain was validated against on the unchanged tree (7 618 cuts, 99 stalled, 0 disagreements)."""
     try:
         tb = bars_of(tracks)
     except Exception:
@@ -121,7 +127,47 @@ def o_chunked(inp):
             fails.append(("notes", f"track {ti}: single call {a['notes']}, chunked {b['notes']} (partition {bounds})"))
         if a["bar_ends"] != b["bar_ends"]:
             fails.append(("bar-grid", f"track {ti}: single call {a['bar_ends']}, chunked {b['bar_ends']} (partition {bounds})"))
+    # the signature EVENTS (audit round 3, O8): where the bar length changes and to what, single call against chunked calls
+    tla, tlb = _sig_timeline(va), _sig_timeline(vb)
+    if tla != tlb:
+        fails.append(("signatures", f"bar length in force (tick, ticks per bar): single call {tla}, chunked {tlb} (partition {bounds})"))
+    # "the whole piece" is the GENERATED piece, not what sequences_split_bars + Bar.to_sequence make of it (audit round 3, table): when no
+    # note crosses a bar line (bars from the signatures alone, harness-side) the chunks hold the piece's own notes, so the chunked stream must
+    # agree with the single call on the generated tracks — and its signature timeline with the piece's signatures, read from the plain input
+    notes_, sigs_, caps_, _ = piece_of_tracks(tracks)
+    lines = {e for _, e in H.bars_plain(tracks)}
+    if any(on < e < on + d for ns in notes_ for (p_, on, d, v_) in ns for e in lines):
+        return fails + [("~note:a-note-crosses-a-bar-line", "")]
+    try:
+        direct = tk.tokenise([P.seq_of_rel(t) for t in tracks])
+    except Exception:
+        return fails + [("~note:single-call-on-generated-tracks-rejects", "")]
+    try:
+        vd = detok_view(tk.detokenise(direct))
+    except Exception as e:
+        return fails + [("detokenise-raises", f"{type(e).__name__}: {e}")]
+    for ti, (a, b) in enumerate(zip(vd, vb)):
+        if a["notes"] != b["notes"]:
+            fails.append(("notes", f"track {ti}: single call on the generated tracks {a['notes']}, chunked {b['notes']} (partition {bounds})"))
+        # the generated tracks may end before their last bar does (the chunks are padded to whole bars; D15 is C01's finding): the shorter
+        # list of bar ends must be the beginning of the longer
+        k_ = min(len(a["bar_ends"]), len(b["bar_ends"]))
+        if a["bar_ends"][:k_] != b["bar_ends"][:k_]:
+            fails.append(("bar-grid", f"track {ti}: single call on the generated tracks {a['bar_ends']}, chunked {b['bar_ends']} (partition {bounds})"))
+    # a signature standing exactly on the END of the piece opens no bar: the bars (and so the chunks) do not hold it, the single call on the
+    # generated tracks does — only changes before the last bar line are compared
+    end_ = max(lines) if lines else 0
+    tlp = [x for x in H.barlen_timeline(sigs_) if x[0] < end_ or x[0] == 0]          # (tick 0 opens the first bar even of an empty piece)
+    tld = [x for x in _sig_timeline(vd) if x[0] < end_ or x[0] == 0]
+    if tlb != tlp:
+        fails.append(("signatures", f"bar length in force (tick, ticks per bar): the piece's signatures {tlp}, chunked {tlb} (partition {bounds})"))
+    if tld != tlb:
+        fails.append(("signatures", f"bar length in force (tick, ticks per bar): single call on the generated tracks {tld}, chunked {tlb} (partition {bounds})"))
     return fails
+
+
+def _sig_timeline(view, ppqn=24):
+    return H.barlen_timeline(sorted([x for v in view for x in v["sigs"]], key=lambda x: x[0]), ppqn)
 
 
 def o_chunked_split(inp):
@@ -186,6 +232,14 @@ def o_chunked_split(inp):
             fails.append(("notes", f"track {ti}: single call {a['notes']}, chunked {b['notes']} (partition {bounds}, ppqn {24 * k})"))
         if a["bar_ends"] != b["bar_ends"]:
             fails.append(("bar-grid", f"track {ti}: single call {a['bar_ends']}, chunked {b['bar_ends']} (partition {bounds}, ppqn {24 * k})"))
+    tla, tlb = _sig_timeline(va, 24 * k), _sig_timeline(vb, 24 * k)
+    if tla != tlb:
+        fails.append(("signatures", f"bar length in force (tick, ticks per bar): single call {tla}, chunked {tlb} (partition {bounds}, ppqn {24 * k})"))
+    # against the piece's own signatures (plain input, scaled by k)
+    _, sigs_, _, _ = piece_of_tracks(tracks)
+    tlp = H.barlen_timeline([(t * k, n, d) for (t, n, d) in sigs_], 24 * k)
+    if tlb != tlp:
+        fails.append(("signatures", f"bar length in force (tick, ticks per bar): the piece's signatures {tlp}, chunked {tlb} (partition {bounds}, ppqn {24 * k})"))
     return fails
 
 
@@ -195,7 +249,13 @@ def setup(ctx):
     ctx.history_oracles = {"chunked"}
 
     def kf_d19(f):
-        return f["oracle"] == "chunked" and f["clause"] in ("notes", "bar-grid") and stalled_chunk([[tuple(m) for m in t] for t in f["input"]["tracks"]], f["input"]["cuts"])
+        # decided on the plain input (bars from the signatures alone), not through sequences_split_bars of the tree under test (audit round 3, K5)
+        # and by the OUTCOME: what the later calls emit lies EARLIER than in the single call, by the lengths of the bars the stalled calls
+        # did not pass (H.d19_outcome); a result that is late, or early by another amount, is not this finding
+        tracks = [[tuple(m) for m in t] for t in f["input"]["tracks"]]
+        if not (f["oracle"] == "chunked" and f["clause"] in ("notes", "bar-grid", "signatures") and H.stalled_chunk_plain(tracks, f["input"]["cuts"])):
+            return False
+        return H.d19_outcome(f["detail"], H.d19_shifts(tracks, f["input"]["cuts"]))
     ctx.kf_predicates["D19"] = kf_d19
 
 
@@ -204,16 +264,35 @@ D19_EXAMPLE = {"cfg": dict(num_tracks=1), "cuts": [1], "tracks": [[
     G.pm(ON, 0, None, note=62, vel=64), G.pm(WAIT, 0, 36), G.pm(OFF, 0, None, note=62)]]}
 
 
+# audit round 3, O8: a signature change in a later bar must come back at its tick, in the single call and in the chunked calls
+SIG_EXAMPLE = {"cfg": dict(num_tracks=1), "cuts": [1], "tracks": [[
+    G.pm(TIMESIG, 0, None, num=4, den=4), G.pm(ON, 0, None, note=60, vel=64), G.pm(WAIT, 0, 24), G.pm(OFF, 0, None, note=60), G.pm(WAIT, 0, 72),
+    G.pm(TIMESIG, 0, None, num=3, den=4), G.pm(ON, 0, None, note=62, vel=64), G.pm(WAIT, 0, 24), G.pm(OFF, 0, None, note=62), G.pm(WAIT, 0, 48)]]}
+
+
 def generate(ctx):
     rng = ctx.rng
     ctx.check("chunked", D19_EXAMPLE)
+    ctx.check("chunked", SIG_EXAMPLE)
     prev = None
     for i in range(ctx.n(60, 1200)):
-        piece = G.gen_piece(rng, n_bars=rng.randint(2, 6), tail_ok=False, pitch_range=(55, 70), within_bar=rng.random() < 0.9,
-                             max_notes_per_bar=4)
+        extra = {}
+        if i % 4 == 1:
+            # off the default step list (audit round 3, O3); the bars are cut by sequences_split_bars at the library's resolution, so ppqn stays 24
+            # here (other resolutions: chunked_split below)
+            extra = {"step_sizes": list(rng.choice(H.STEP_MENU[24][:6] + H.STEP_MENU[24][7:8] + H.DUP_STEPS[:3]))}
+            piece = H.gen_piece_p(rng, ppqn=24, steps=extra["step_sizes"], n_bars=rng.randint(2, 6), tail_ok=False, pitch_range=(55, 70),
+                                  within_bar=rng.random() < 0.9, max_notes_per_bar=4)
+            for lab in H.describe_cfg(extra):
+                ctx.count("cfg:" + lab)
+        else:
+            piece = G.gen_piece(rng, n_bars=rng.randint(2, 6), tail_ok=False, pitch_range=(55, 70), within_bar=rng.random() < 0.9,
+                                 max_notes_per_bar=4)
         kw = dict(num_tracks=len(piece["tracks"]), velocity_bins=rng.choice([1, 2, 4, 8, 8, 12, 16]), running=rng.random() < 0.7,
                   fuse_track=rng.random() < 0.5, fuse_value=rng.random() < 0.5, fuse_velocity=rng.random() < 0.5,
-                  pitch_range=(55, 70))
+                  pitch_range=(55, 70), **extra)
+        if len(piece["sigs"]) > 1:
+            ctx.count("signature-change")
         cfg = P.TkCfg(**kw)
         nb = len(piece["bars"])
         if ctx.thorough and nb <= 5:
@@ -224,7 +303,7 @@ def generate(ctx):
         for cuts in parts:
             ctx.case((piece["tracks"], sorted(kw.items()), cuts), len(cuts) >= 1 and nn >= 2)
             ctx.check("chunked", {"cfg": kw, "tracks": piece["tracks"], "cuts": cuts})
-        if i % 2 == 0:
+        if i % 2 == 0 and not extra:
             ctx.count("chunks-by-Sequence.split")
             ctx.check("chunked_split", {"cfg": kw, "tracks": piece["tracks"], "cuts": parts[0], "scale": rng.choice([1, 2, 2, 4])})
         prev = {"cfg": kw, "tracks": piece["tracks"]}
